@@ -167,7 +167,7 @@ func runC07x(c c07Case) (*vstat.Failure, c07Res) {
 		vBefore, vTimeBefore, _ := c07Datum(obj, "v")
 		e0 := hx.RuntimeErrors(name)
 		t0 := time.Now()
-		v.ProcessLogLine(nil, hx.Line("f", text))
+		hx.Run(v, "f", text)
 		t1 := time.Now()
 		errs := hx.RuntimeErrors(name) - e0
 		tsVal, tsTime, _ := c07Datum(obj, "ts")
